@@ -276,12 +276,12 @@ func runVacuum(c *Case, id string) {
 			if stmt(wi, "upd", k, map[string]string{"c": tag}) {
 				stmt(wi, "upd", k, map[string]string{"c": "NULL"})
 			}
-		case x < 79 && nw >= 2: // a delete on one writer, a later update of the same row on another that has not seen it
+		case x < 78 && nw >= 2: // a delete on one writer, a later update of the same row on another that has not seen it
 			wj := (wi + 1 + r.Intn(nw-1)) % nw
 			if stmt(wi, "del", k, nil) {
 				stmt(wj, "upd", k, map[string]string{"b": tag + "late"})
 			}
-		case x < 80: // delete everything
+		case x < 81: // delete everything
 			for kk := 1; kk <= nkeys && c.Res.Status != "violated"; kk += r.Range(1, 3) {
 				stmt(wi, "del", kk, nil)
 			}
@@ -555,6 +555,26 @@ func runVacuum(c *Case, id string) {
 	postNames := walk.VersionNames(post, base, "current")
 	purged, kept := 0, 0
 	reclaimed, retained := 0, 0
+	if len(postNames) == 0 && len(preNames) == 1 {
+		// the vacuum removed the current version object itself: allowed for an empty version
+		// created before the cutoff, like any other version (otherwise what it links to can never
+		// be reached, hence never reclaimed, again)
+		removedCreated := int64(0)
+		if v, ok := g[preNames[0]]; ok {
+			removedCreated = v.Created
+		}
+		for _, ev := range vacEvents {
+			if ev.Op == fs3.OpPut && strings.Contains(ev.Key, "/root/current/") {
+				// the vacuum's own commit: created when its handle was last opened (N1)
+				removedCreated = tnanos(openStamp[0])
+			}
+		}
+		c.Count("removed_current_versions_checked", 1)
+		if removedCreated >= cutNanos {
+			fail("current-version-removed:created-at-or-after-cutoff", fmt.Sprintf("the vacuum (cutoff %s) removed the current version object although it was created at %s, not before the cutoff", tstr(cutoff), time.Unix(0, removedCreated).UTC().Format("2006-01-02 15:04:05")))
+			return
+		}
+	}
 	if !is09 && len(postNames) == 0 {
 		// an empty current version older than the cutoff may be removed altogether
 		live := 0
